@@ -429,7 +429,10 @@ def main(argv=None):
     # ---- known findings: probe each; a probe that still fails keeps its key excluded
     known_keys = []
     n_probe = 0
-    for entry in load_known(prop):
+    entries = load_known(prop)
+    entries = [e for e in entries if e.get('status') == 'known'] + \
+              [e for e in entries if e.get('status') != 'known']
+    for entry in entries:
         probe = entry.get('probe')
         status = entry.get('status')
         if not probe:
@@ -450,8 +453,9 @@ def main(argv=None):
                 known_keys.append(entry['key'])
                 known_lines.append(f'KNOWN-FINDING: property={prop} {entry["what"]}')
             # if the probe passes, the defect is gone: exclusion lifted, nothing printed
-        else:  # fixed: plain regression case
-            others = out.failures
+        else:  # fixed: plain regression case (still-open known findings are not re-reported)
+            others = [f for f in out.failures
+                      if not any(key_matches(k, f.key) for k in known_keys)]
         if others:
             fl = [f.as_dict() for f in others]
             path = write_replay(prop, probe['check'], probe['spec'], fl, seed_value)
